@@ -259,11 +259,20 @@ func (t *ArrayTupleOfValue) ConcatVal(other Value) (Value, Value) {
 			newArrayTuple = append(newArrayTuple, *o...)
 			return Ref(&newArrayTuple), Undefined
 		case ArrayList:
-			newArrayTuple := make(ArrayListOfValue, len(*t), len(*t)+o.Length())
+			newArrayList := make(ArrayListOfValue, len(*t), len(*t)+o.Length())
+			copy(newArrayList, *t)
+
+			for _, element := range o.Elements() {
+				newArrayList = append(newArrayList, element)
+			}
+
+			return Ref(&newArrayList), Undefined
+		case ArrayTuple:
+			newArrayTuple := make(ArrayTupleOfValue, len(*t), len(*t)+o.Length())
 			copy(newArrayTuple, *t)
 
-			for i, element := range o.Elements() {
-				newArrayTuple[len(*t)+i] = element
+			for _, element := range o.Elements() {
+				newArrayTuple = append(newArrayTuple, element)
 			}
 
 			return Ref(&newArrayTuple), Undefined
